@@ -18,7 +18,7 @@ def c13(tier):
 
     def relevant(mm, sess, runs):
         # a difference that the uninterrupted run shows as well is not a slicing problem
-        if mm['kind'] == 'slices':
+        if mm['kind'] in ('slices', 'abort'):
             return True
         return mm['kind'] == 'conformance' and 'plain' not in runs and any(r.startswith('slice') for r in runs)
 
